@@ -563,7 +563,7 @@ def run(ctx):
     import p_c18
     r18 = p_c18.run(ctx)
     from lin import Finding as _F
-    fs18 = [_F("C14.SUGGEST/" + f.rule, f.body, f.what, f.at, f.detail) for f in r18.findings]
+    fs18 = [_F("C14.SUGGEST/" + f.rule, f.body, f.what, f.at, f.detail, undecided=getattr(f, "undecided", False)) for f in r18.findings]
     res.add("C14.SUGGEST", sum(v2[0] for v2 in r18.rules.values()), fs18)
     # C14.BREAK = C03.BUILTIN
     import p_c03
